@@ -1090,7 +1090,7 @@ pub fn run(opts: &Opts) -> Report {
             }
         }
         cx.rep.exhaustive = true;
-        let n_long = if opts.thorough { 20000 } else { 2500 };
+        let n_long = if opts.thorough { 80000 } else { 2500 };
         for _ in 0..n_long {
             let s = gen.string();
             let cs = contexts(s);
@@ -1179,7 +1179,7 @@ pub fn run(opts: &Opts) -> Report {
         cx.case("long", &E::List((0..1000).map(|i| E::Str(format!("'{}", i), (i % 2) as u8)).collect()), None);
 
         // ---- (3) random trees
-        let n_rand = if opts.thorough { 120000 } else { 12000 };
+        let n_rand = if opts.thorough { 600000 } else { 12000 };
         for i in 0..n_rand {
             let d = 1 + (i % 4) as u32;
             let e = gen.expr(d);
@@ -1200,7 +1200,7 @@ pub fn run(opts: &Opts) -> Report {
             cx.case("unsupported", &E::Chain(b(atom("x")), vec![Lk::Access("f".into()), Lk::Call(vec![atom("a"), bad.clone()])]), None);
             cx.case("unsupported", &E::Tern(b(atom("a")), b(atom("b")), b(bad.clone())), None);
         }
-        let n_rand_bad = if opts.thorough { 6000 } else { 800 };
+        let n_rand_bad = if opts.thorough { 20000 } else { 800 };
         for _ in 0..n_rand_bad {
             // a random tree with one leaf replaced
             let mut e = gen.expr(3);
@@ -1212,6 +1212,17 @@ pub fn run(opts: &Opts) -> Report {
             if plant(&mut e, &bad, &mut gen.rng) {
                 cx.case("unsupported-random", &e, None);
             }
+        }
+
+        // ---- malformed sources: nothing to translate, nothing may panic
+        for src in ["", "(", "x.", "f(1,", "'abc", "1 +", "x[", "{'a':}", "a ? b", "match x {", "- ", "!!", "x.1", "x ? : y", "f(,)", "[1,,2]", "'a' 'b'", "1 2", ")", "x.f(1))"] {
+            let real = real_sql(src);
+            cx.rep.count(Some(src));
+            cx.rep.bump("stream:malformed");
+            if real != "X" {
+                cx.rep.oracle_fail(src, &real, "X (does not compile)", if real == "P" { "translation panicked" } else { "a malformed source was translated" });
+            }
+            cx.pending.push(Pending { request: format!("sqltext {}", hex(src.as_bytes())), implementation: real, level: 9, input: format!("to_sql of malformed: {}", src) });
         }
 
         // ---- recorded findings (tagged)
